@@ -231,7 +231,7 @@ impl<T: RealNumber> BBDTree<T> {
             }
         }
 
-        if max_radius < T::from(1E-10).unwrap() {
+        if max_radius <= T::zero() {
             node.lower = Option::None;
             node.upper = Option::None;
             for i in 0..d {
@@ -249,7 +249,11 @@ impl<T: RealNumber> BBDTree<T> {
             return self.add_node(node);
         }
 
-        let split_cutoff = node.center[split_index];
+        // the midpoint of two adjacent floats can round down to the lower bound, which would leave the lower half empty
+        let mut split_cutoff = node.center[split_index];
+        if split_cutoff <= lower_bound[split_index] {
+            split_cutoff = upper_bound[split_index];
+        }
         let mut i1 = begin;
         let mut i2 = end - 1;
         let mut size = 0;
